@@ -325,11 +325,19 @@ impl<const N: usize> Ex<N> {
                 e("(&buf).into_iter() disagrees with iter()".into());
             }
             // pairwise distinct addresses
-            for i in 0..items.len() {
-                for j in 0..i {
-                    if items[i].addr == items[j].addr {
-                        e(format!("positions {j} and {i} have the same address"));
+            if items.len() <= 16 {
+                for i in 0..items.len() {
+                    for j in 0..i {
+                        if items[i].addr == items[j].addr {
+                            e(format!("positions {j} and {i} have the same address"));
+                        }
                     }
+                }
+            } else {
+                let mut a: Vec<usize> = items.iter().map(|i| i.addr).collect();
+                a.sort_unstable();
+                if a.windows(2).any(|w| w[0] == w[1]) {
+                    e("two positions have the same address".into());
                 }
             }
         }
